@@ -11,7 +11,8 @@ for mp in sorted(glob.glob(f"{V}/seeded/*/meta.json")):
     mm = re.search(r"(cotengra/[\w/\.]+)", open(f"{d}/patch.diff").read())
     if mm:
         site = mm.group(1)
-    tests = open(f"{d}/tests_full.txt").read().strip().splitlines()[-1] if os.path.exists(f"{d}/tests_full.txt") else "(subset run by the seeder)"
+    tl = open(f"{d}/tests_full.txt").read().strip().splitlines() if os.path.exists(f"{d}/tests_full.txt") else []
+    tests = tl[-1] if tl else "(subset run by the seeder)"
     caught = ", ".join(f"{c}: {'caught' if r['caught'] else ('MISSED' if r['exit'] == 0 else 'machinery')}" for c, r in m["checks"].items())
     first = next((r["first_violation"] for r in m["checks"].values() if r["caught"]), "")
     rows.append(f"| {m['id']} | {site} | {m.get('summary', '')} | {caught} | {first[:110].replace('|', '/')} | {tests[:60]} |")
